@@ -535,6 +535,13 @@ pub fn windows(steps: &[(usize, &'static str)], programs: &[Vec<Vec<u8>>]) -> Ve
 /// is there a one-at-a-time order of the commands (respecting each thread's own order) that gives the same
 /// results and the same final content on the real code run sequentially?
 pub fn linearizable(case: &Case, replay_setup: &dyn Fn() -> World, outcome: &Outcome) -> bool {
+    reference_set(case, replay_setup).contains(&(outcome.results.clone(), strip_ts(&outcome.dump)))
+}
+
+/// every (results, content) a legal one-at-a-time execution of the case can end in — it depends on the case only, so the
+/// suite computes it once per case and looks every schedule's outcome up
+pub fn reference_set(case: &Case, replay_setup: &dyn Fn() -> World) -> std::collections::HashSet<(Vec<Vec<String>>, String)> {
+    let mut set: std::collections::HashSet<(Vec<Vec<String>>, String)> = Default::default();
     // one-at-a-time orders of the commands (each thread's own order respected), run on the real code through the
     // same gate with each command's calls contiguous. Looseness of the specification (DESIGN.md section 11):
     // an expired record may vanish at any time, so the collection half (`check_if_expired`) of a get that found an
@@ -670,12 +677,12 @@ pub fn linearizable(case: &Case, replay_setup: &dyn Fn() -> World, outcome: &Out
                 }
             }
             let o = ex.finish();
-            if legal && o.hung.is_none() && o.results == outcome.results && strip_ts(&o.dump) == strip_ts(&outcome.dump) {
-                return true;
+            if legal && o.hung.is_none() {
+                set.insert((o.results.clone(), strip_ts(&o.dump)));
             }
         }
     }
-    false
+    set
 }
 
 /// CAS numbers are opaque tokens: compare dumps and results up to the numbering of counter-issued values
@@ -769,6 +776,8 @@ pub fn run_suite(profile: &str, seed: u64, count: u64, per_case: usize, mut trac
         // upper bound of calls per command: 3 (get_by_key, check_if_expired, set)
         let counts: Vec<usize> = case.programs.iter().map(|p| p.len() * 3).collect();
         let scheds = interleavings(&counts, per_case, &mut rng);
+        let setup0 = case.setup.clone();
+        let refs = reference_set(&case, &|| apply_setup(&setup0));
         for sched in scheds {
             st.schedules += 1;
             let start = ops.len();
@@ -813,8 +822,7 @@ pub fn run_suite(profile: &str, seed: u64, count: u64, per_case: usize, mut trac
             if outcome.results.iter().flatten().any(|x| x == "panic") {
                 viols.push((start, end, vec!["C10"], "a command panicked under this schedule".to_string()));
             }
-            let setup = case.setup.clone();
-            let lin = linearizable(&case, &|| apply_setup(&setup), &outcome);
+            let lin = refs.contains(&(outcome.results.clone(), strip_ts(&outcome.dump)));
             if !lin {
                 let ws = windows(&outcome.steps, &case.programs);
                 let only_c03_cmds = case.programs.iter().flatten().all(|f| matches!(f[1], 0x00 | 0x01 | 0x04));
